@@ -263,6 +263,33 @@ pub fn compare_with_model(
   }
   // dependencies
   for m in graph.modules() {
+    // Wasm modules declare dependencies through their import section
+    if let Module::Wasm(wm) = m {
+      if let Some(MSlot::Wasm { deps }) = mg.slots.get(wm.specifier.as_str()) {
+        acc.count("wasm_modules_compared");
+        let ok: BTreeSet<&String> = wm.dependencies.keys().collect();
+        let ek: BTreeSet<&String> = deps.iter().map(|(k, _)| k).collect();
+        if ok != ek {
+          acc.violation(
+            format!("model/dependency-set/wasm/{}", kind),
+            format!("{}: observed dependency texts {:?}, import section declares {:?}", wm.specifier, ok, ek),
+            json!({"ctx": ctx, "module": wm.specifier.as_str()}),
+          );
+        } else {
+          for (text, e) in deps {
+            let d = &wm.dependencies[text];
+            if obs_res(&d.maybe_code) != e.code || obs_res(&d.maybe_type) != e.typ || d.is_dynamic {
+              acc.violation(
+                format!("model/dependency-field/wasm/{}", kind),
+                format!("{} {:?}: code {:?} vs {:?}, type {:?} vs {:?}, dynamic {}", wm.specifier, text, obs_res(&d.maybe_code), e.code, obs_res(&d.maybe_type), e.typ, d.is_dynamic),
+                json!({"ctx": ctx, "module": wm.specifier.as_str()}),
+              );
+            }
+          }
+        }
+      }
+      continue;
+    }
     let Module::Js(js) = m else { continue };
     let Some(MSlot::Js { deps, types_dep }) = mg.slots.get(js.specifier.as_str())
     else {
@@ -408,6 +435,7 @@ fn one(i: usize, seed: u64, acc: &mut Acc) {
     acc.count(&format!("model_compared:{:?}", kind));
     let followed_edge = mg.slots.values().any(|s| match s {
       MSlot::Js { deps, types_dep } => !deps.is_empty() || types_dep.is_some(),
+      MSlot::Wasm { deps } => !deps.is_empty(),
       _ => false,
     });
     if mg.slots.len() >= 2 && followed_edge {
